@@ -37,10 +37,10 @@ def plan(tier: str, seed: int) -> list[dict]:
     specs = []
     for i in range(10 if q else 14):
         specs.append({"name": f"flows-{i}", "fn": "shard_flows", "flows": 45 if q else 1500, "part": i,
-                      "_budget_s": 90 if q else 1000, "_timeout_s": 600 if q else 2400})
+                      "_budget_s": 150 if q else 1000, "_timeout_s": 600 if q else 2400})
     for i in range(2):
         specs.append({"name": f"messages-{i}", "fn": "shard_messages", "cases": 120 if q else 2500,
-                      "_budget_s": 80 if q else 900, "_timeout_s": 600 if q else 2400})
+                      "_budget_s": 150 if q else 900, "_timeout_s": 600 if q else 2400})
     return specs
 
 
